@@ -413,3 +413,39 @@ def apply_op_h(g, op):
     try: g = apply_op(g, op)
     except Exception as e: return g, failed_hints(op, h), exn_name(e)
     return g, post_hints(g, op, h), None
+
+
+COMPOUND = ('cf', 'rd', 'rf', 'tr', 'de')
+
+
+def mesh_defect_sets(g):
+    miss = set(repr(c) for c in g.missing_connections)
+    extra = set(g.extra_connections)
+    orph = set(n.name for n in g.orphans)
+    return miss, extra, orph
+
+
+def conforming(g):
+    """two different columns share at most two nodes, and if two, these are consecutive in both (a common side);
+    no two connections join the same pair of columns"""
+    pairs = set()
+    for con in g.connectionlist:
+        key = frozenset(id(c) for c in con.column)
+        if key in pairs or len(key) < 2: return False
+        pairs.add(key)
+    seen = set()
+    for n in g.nodelist:
+        cols = [c for c in g.columnlist if n in c.node] if len(g.columnlist) <= 12 else list(n.column)
+        for i, a in enumerate(cols):
+            for b in cols[i + 1:]:
+                key = (id(a), id(b)) if id(a) < id(b) else (id(b), id(a))
+                if key in seen: continue
+                seen.add(key)
+                sh = [m for m in a.node if m in b.node]
+                if len(sh) > 2: return False
+                if len(sh) == 2:
+                    for col in (a, b):
+                        i0, i1 = col.node.index(sh[0]), col.node.index(sh[1])
+                        k = len(col.node)
+                        if (i0 + 1) % k != i1 and (i1 + 1) % k != i0: return False
+    return True
